@@ -57,7 +57,7 @@ func EvilNumStr(t *rapid.T, label string) string {
 
 var evilTokens = []string{
 	"", " ", "/", "//", "/.", "/..", "../", "..", ".", "~", "~^.*$", "*", "?", "#", "&", "=", "%", "%00", "%2e%2e", "%2f", "%2F..%2F", "%ff", "%zz", "%",
-	"\x00", "\r\n", "\n", "\t", "\r", "\x7f", "\xff\xfe", "\xc0\xaf", "é", "世界", "‮", "﻿", "a b", "a+b", "a;b", "a,b", "a:b", "a=b", "a\"b", "a'b", "a\\b",
+	"\x00", "\r\n", "\n", "\t", "\r", "\x7f", "\xff\xfe", "\xc0\xaf", "é", "世界", "\u202e", "\ufeff", "a b", "a+b", "a;b", "a,b", "a:b", "a=b", "a\"b", "a'b", "a\\b",
 	"<x>", "{x}", "[x]", "(x)", "|", "`", "$", "${x}", "$(x)", "%s%s%s%n", "%d", "{{.}}", "null", "undefined", "true", "-", "--", "_", "@", "a@b", "!", "^",
 	"live", "live/", "/live", "LIVE", "live2", "all_others", "publish", "whip", "whep", "index.m3u8", "list", "get",
 }
@@ -163,7 +163,8 @@ func mutateOnce(t *rapid.T, label string, b []byte) []byte {
 		return append(append(append([]byte(nil), b[:end]...), b[pos:end]...), b[end:]...)
 	case 7: // overwrite 2..4 bytes with 0xff / 0x00 (length fields)
 		v := rapid.SampledFrom([]byte{0xff, 0x00, 0x7f, 0x80}).Draw(t, label+"Fill")
-		for i := pos; i < pos+rapid.IntRange(2, 4).Draw(t, label+"W") && i < len(b); i++ {
+		w := rapid.IntRange(2, 4).Draw(t, label+"W")
+		for i := pos; i < pos+w && i < len(b); i++ {
 			b[i] = v
 		}
 		return b
